@@ -269,12 +269,15 @@ Inductive cls :=
 (* ArgumentParser._get_option_tuples, for an argument of at least two characters starting with '-' *)
 Definition option_tuples (om : list (str * target)) (a : str) : list (str * target * option str) :=
   match a with
-  | _ :: 45%N :: _ =>
-      let '(prefix, explicit) := match split_at 61 a with Some (p, e) => (p, Some e) | None => (a, None) end in
-      flat_map (fun '(f, t) => if starts_with prefix f then [(f, t, explicit)] else []) om
   | c0 :: c1 :: rest =>
-      flat_map (fun '(f, t) => if str_eqb f [c0; c1] then [(f, t, Some rest)]
-                               else if starts_with a f then [(f, t, None)] else []) om
+      if N.eqb c1 45 then
+        (* two prefix characters: only split at '=' ; any option string starting with the prefix matches *)
+        let pe := match split_at 61 a with Some (p, e) => (p, Some e) | None => (a, None) end in
+        flat_map (fun ft => if starts_with (fst pe) (fst ft) then [(fst ft, snd ft, snd pe)] else []) om
+      else
+        (* a single-dash option may be concatenated with its argument *)
+        flat_map (fun ft => if str_eqb (fst ft) [c0; c1] then [(fst ft, snd ft, Some rest)]
+                            else if starts_with a (fst ft) then [(fst ft, snd ft, None)] else []) om
   | _ => []
   end.
 
